@@ -293,6 +293,65 @@ func runC12(env *Env) {
 				fmt.Fprintf(&src, "out.push(d.%s(%s)); out.push(d.getTime());", s.name, strings.Join(js, ","))
 				ops[k] = fmt.Sprintf("(%d, %s)", id, Clist(cq))
 			}
+			if r.Intn(6) == 0 {
+				// re-entrancy: one argument of a setter is an object whose valueOf calls another setter on the same Date
+				oid, iid := r.Intn(7), r.Intn(8) // outer: a field setter; inner: any setter incl. setTime
+				mk := func(id int) ([]string, []string) {
+					sd := c12Setters[id]
+					na := r.Intn(sd.max) + 1
+					js, cq := make([]string, na), make([]string, na)
+					for a := 0; a < na; a++ {
+						switch {
+						case id == 6 && a == 0:
+							js[a], cq[a] = g.year()
+						case id == 7:
+							tv := g.timeValue()
+							js[a], cq[a] = JSNum(float64(tv)), "(Some "+Cz(tv)+")"
+							if r.Intn(5) == 0 {
+								js[a], cq[a] = "NaN", "None"
+							}
+						default:
+							js[a], cq[a] = g.field()
+						}
+					}
+					return js, cq
+				}
+				if r.Intn(3) == 0 {
+					// how many arguments are converted: every argument is a counting object
+					sd := c12Setters[oid]
+					na := r.Intn(sd.max) + 1
+					js, cq := make([]string, na), make([]string, na)
+					for a := 0; a < na; a++ {
+						v, c := g.field()
+						if strings.HasPrefix(v, "({") || c == "None" && r.Intn(2) == 0 {
+							v, c = "7", "(Some 7)"
+						}
+						js[a], cq[a] = fmt.Sprintf("({valueOf: function () { cnt++; return %s; }})", v), c
+					}
+					src3 := fmt.Sprintf("var d = new Date(%s); var cnt = 0; d.%s(%s); cnt", start, sd.name, strings.Join(js, ","))
+					obs := g.js(src3)
+					env.Add(fmt.Sprintf("CConv %s %s %s", cstart, Clist(cq), Cz(func() int64 { n, _ := strconv.ParseInt(obs, 10, 64); return n }())),
+						fmt.Sprintf("conversions: %s -> %s", src3, obs), "set-conversions", true)
+					continue
+				}
+				if cstart == "None" {
+					start, cstart = "86400000", "(Some 86400000)"
+				}
+				ojs, ocq := mk(oid)
+				ijs, icq := mk(iid)
+				pos := r.Intn(len(ojs))
+				for a := 0; a <= pos; a++ { // otto stops converting at the first NaN (finding 4): keep the path to the re-entrant argument finite
+					if ocq[a] == "None" || strings.HasPrefix(ojs[a], "({") {
+						ojs[a], ocq[a] = "3", "(Some 3)"
+					}
+				}
+				ojs[pos] = fmt.Sprintf("({valueOf: function () { innerRet = d.%s(%s); return %s; }})", c12Setters[iid].name, strings.Join(ijs, ","), ojs[pos])
+				src2 := fmt.Sprintf("var d = new Date(%s); var innerRet = undefined; var o = d.%s(%s); [innerRet, o, d.getTime()].join(\",\")", start, c12Setters[oid].name, strings.Join(ojs, ","))
+				obs := g.js(src2)
+				env.Add(fmt.Sprintf("CReent %s (%d, %s) (%d, %s) %s", cstart, oid, Clist(ocq), iid, Clist(icq), Clist(optZList(obs))),
+					fmt.Sprintf("reentrant setter: %s -> %s", src2, obs), "set-reentrant", true)
+				continue
+			}
 			if r.Intn(4) == 0 {
 				// the same history on a copy of the runtime (or on the original after copying): the other
 				// runtime's Date must keep its time value
